@@ -26,21 +26,23 @@ func keyHex(seed byte) (pk, addr string) {
 }
 
 type gen struct {
-	w     io.Writer
-	r     *hx.Rng
-	ts    int64
-	seq   int
-	ih    uint64
-	n     uint64 // blocks produced: heights ih .. ih+n-1
-	empty map[uint64]bool
-	head  uint64 // head of the DA layer as the ops leave it
-	start uint64
+	w       io.Writer
+	r       *hx.Rng
+	ts      int64
+	seq     int
+	ih      uint64
+	n       uint64 // blocks produced: heights ih .. ih+n-1
+	empty   map[uint64]bool
+	head    uint64 // head of the DA layer as the ops leave it
+	start   uint64
+	noCrash bool
 }
 
 func (g *gen) reset(ih, dastart uint64) {
 	pk, pa := keyHex(1)
 	pk2, _ := keyHex(2)
 	g.ih, g.n, g.ts, g.empty, g.head, g.start = ih, 0, baseTime, map[uint64]bool{}, 1, dastart
+	g.noCrash = false
 	fmt.Fprintf(g.w, "reset ih=%d gt=%d dastart=%d pa=%s pk=%s pk2=%s\n", ih, baseTime, dastart, pa, pk, pk2)
 	g.produce(0) // the first production step commits the genesis block (always empty)
 }
@@ -151,7 +153,19 @@ func (g *gen) chain(nb int, repeats bool) {
 	}
 }
 
+// interruption: a restart, a crash, ... between two steps.  In scenarios that contain a recorded finding on purpose
+// (repeated tx list, junk after genuine data) no crash is generated: after a crash every finding is attributed to the
+// crash point (C05/after-crash/...), and the recorded findings are listed without such a prefix.
 func (g *gen) interruption() {
+	if g.noCrash {
+		switch g.r.Intn(4) {
+		case 0:
+			g.op("restart")
+		case 1:
+			g.op("stopheld order=%s hold=%d", []string{"hd", "dh"}[g.r.Intn(2)], g.r.Intn(3))
+		}
+		return
+	}
 	switch g.r.Intn(6) {
 	case 0:
 		g.op("restart")
@@ -235,6 +249,24 @@ func (g *gen) p2pStores(thorough bool) {
 		}
 		g.op("p2pstore items=-")
 		g.op("show")
+	}
+	// the recorded finding, generated on purpose: the genuine data of block 2 is cached (its header has not arrived), a junk
+	// item naming height 2 replaces it in the cache, the header arrives (the junk is dropped), and the genuine data - marked
+	// seen - is dropped for ever; also with a clean restart in between (the caches are in the cache files)
+	for v := 0; v < 2; v++ {
+		g.reset(1, 0)
+		g.noCrash = true
+		g.produce(1)
+		g.produce(1)
+		g.op("p2pstore items=H1,D2")
+		if v == 1 {
+			g.op("restart")
+		}
+		g.op("p2pstore items=JD2")
+		g.op("show")
+		g.op("p2pstore items=H2,H3,D3")
+		g.op("show")
+		g.op("p2pstore items=D2") // the genuine data once more: already seen
 	}
 	// long chains: a store that is more than 100 heights ahead of the loop's cursor at one poll
 	// (a) a late joiner: everything is in the stores when the node polls for the first time
@@ -484,6 +516,7 @@ func Gen(r *hx.Rng, tier string, w io.Writer) {
 		dastart := []uint64{0, 0, 1, 2, 3, 5}[r.Intn(6)]
 		g.reset(ih, dastart)
 		repeats := r.Chance(8)
+		g.noCrash = repeats
 		g.chain(1+r.Intn(maxBlocks), repeats)
 		parts := g.parts()
 		// blobs below the DA start height: never read by anybody
